@@ -512,6 +512,14 @@ impl Property for C08 {
                         log.push("clone()".into());
                         let c = xot.clone();
                         m.check_all(&c, "in clone")?;
+                        // the built-in ids are part of the store
+                        builtin(&c).map_err(|e| format!("in clone: {}", e))?;
+                        if c.xml_id_name() != xot.xml_id_name() || c.xml_space_name() != xot.xml_space_name() || c.xml_namespace() != xot.xml_namespace()
+                            || c.xml_prefix() != xot.xml_prefix() || c.empty_prefix() != xot.empty_prefix() || c.no_namespace() != xot.no_namespace()
+                        {
+                            return Err("a built-in id differs between a Xot and its clone".into());
+                        }
+                        builtin(&xot).map_err(|e| format!("after clone(): {}", e))?;
                         // registering in the clone must not disturb the original
                         let mut c = c;
                         c.add_name("only-in-clone");
